@@ -116,8 +116,8 @@ func raceInPanrpc(blk string) bool {
 		}
 		for _, l := range strings.Split(sec, "\n") {
 			l = strings.TrimSpace(l)
-			if strings.HasPrefix(l, "main.") {
-				break
+			if strings.HasPrefix(l, "main.") || strings.Contains(l, ".verifTrace(") || strings.Contains(l, ".verifYield(") || strings.Contains(l, ".SetVerifHooks(") {
+				break // harness code or the instrumentation itself
 			}
 			if strings.HasPrefix(l, "github.com/pojntfx/panrpc/go/pkg/") {
 				hits++
